@@ -411,9 +411,15 @@ func (f *Frame) frameObligations(ct *Contract, final *State, rg Term, top string
 	var modRegs []Term // slice regions allowed to change (element heaps)
 	var modObjs []Term // objects whose fields may change
 	modFields := map[string][]Term{}
+	modBytes := false
 	for _, m := range ct.Modifies {
 		if m == "*" {
 			modAll = true
+			continue
+		}
+		if m == "bytes" {
+			// the contents of byte arrays may change (wiping, in-place codecs); everything else is framed
+			modBytes = true
 			continue
 		}
 		ts, err := env.modTargets(m)
@@ -456,6 +462,9 @@ func (f *Frame) frameObligations(ct *Contract, final *State, rg Term, top string
 		cur := final.heaps[k]
 		init := e.heap(f.entry, k, cur.Sort)
 		if cur.S == init.S || strings.HasPrefix(k, "ghost_") {
+			continue
+		}
+		if hb, _ := e.elemHeapName(SBV8); modBytes && k == hb {
 			continue
 		}
 		if !strings.HasPrefix(k, "HE_") && !strings.HasPrefix(k, "HF_") && !strings.HasPrefix(k, "HP_") && !strings.HasPrefix(k, "HM") {
@@ -661,7 +670,7 @@ func (p *Prog) verifyFunction(ct *Contract, opts runOpts) *FuncReport {
 			continue
 		}
 		q := e.buildQuery(pre, r.O, true)
-		r2 := solve(wd, r.O.Name+"_retry", q, opts.timeoutS*3, false)
+		r2 := solve(wd, r.O.Name+"_retry", q, opts.timeoutS*5, false)
 		if r2.Verdict == "unsat" || r2.Verdict == "sat" {
 			r2.Solver += " (retry)"
 			r.Res = r2
